@@ -1,0 +1,21 @@
+//go:build verif
+
+// Contracts for the exovc verifier (/verif). Comment-only: with the tag off this file is not part
+// of the package, with the tag on it declares nothing.
+package oracle
+
+// C12 (a price needs more than the configured fraction of the CURRENT total voting power): when the validator set
+// changes, the powers handed to the aggregator are read from the cache AFTER this block's updates have been added to
+// it; a read that precedes the write would leave the aggregator one validator set behind.
+//@ func (AppModule).EndBlock
+//@   flag noframe
+//@   flag pure=GetCaches,GetValidatorUpdates,GetAggregatorContext,Logger,FromTmProtoPublicKey,Address,NewInt,Info,BlockHeight,GetValidators,Join,GetUpdatedFeederIDs
+//@   before[C12.eb.fresh] GetCache requires !defined(res_SealRound_0) ==> ghost(cacheAdds) == old(ghost(cacheAdds)) + 1
+//@ loop #1
+//@   invariant true
+//@ loop #2
+//@   invariant true
+//@ loop #3
+//@   invariant true
+//@ loop #4
+//@   invariant true
